@@ -531,11 +531,15 @@ def gen_collider(rng, stream, typ):
             W = V.dot(R.T) + t
             return {"type": typ, "vertices": W.tolist()}
         tri = ch.simplices.copy()
-        # outward orientation (as make_convex_mesh produces)
+        # outward orientation (as make_convex_mesh produces) — or, for a third of the meshes, the triangle list as a
+        # hull routine hands it out: every triangle in whichever winding it happens to have
         c = V.mean(axis=0)
+        mixed = rng.random() < 0.33
         for k in range(len(tri)):
             a, b, cc = V[tri[k]]
-            if np.cross(b - a, cc - a).dot(a - c) < 0:
+            if np.cross(b - a, cc - a).dot(a - c) < 0 and not mixed:
+                tri[k] = tri[k][::-1]
+            elif mixed and rng.random() < 0.5:
                 tri[k] = tri[k][::-1]
         return {"type": typ, "R": R.tolist(), "t": t.tolist(), "vertices": V.tolist(), "triangles": tri.tolist()}
     raise ValueError(typ)
@@ -635,6 +639,22 @@ def gen_scene(rng, stream, types=None, kind=None, f=None, placement=None):
                 n = unit(rng.choice([[1, 1, 0], [1, 0, 1], [0, 1, 1], [1, 1, 1], [3, 4, 0], [0, -3, 4]]))
         else:
             n = rand_unit(rng)
+            axial = [x for x in (a, b) if x["type"] in ("cylinder", "capsule", "cone", "disk", "ellipse", "box")]
+            if axial and rng.random() < 0.5:
+                # face-on / coaxial placement under a general rotation: the separation direction is a feature axis of one
+                # of the shapes (cylinder, capsule and cone axis, box face normal, disk normal, ellipse axis) — the
+                # search direction then reaches the support function parallel to that axis up to rounding
+                who = rng.choice(axial)
+                if "R" in who:
+                    ax = np.array(who["R"], dtype=float)[:, rng.choice([2, 2, 0, 1])]
+                elif "n" in who:
+                    ax = np.array(who["n"], dtype=float)
+                elif "axes" in who:
+                    ax = np.array(who["axes"][rng.randrange(2)], dtype=float)
+                else:
+                    ax = None
+                if ax is not None and np.linalg.norm(ax) > 0:
+                    n = unit(ax) * rng.choice([-1.0, 1.0])
         sc, why = build_separated(rng, a, b, n, f, align=(placement == "aligned"))
     else:
         if placement is None:
